@@ -184,6 +184,8 @@ class Gen:
                 self.emit("m lock %d" % tid)
                 self.locked[tid] = True
                 self.emit("m iter %d" % tid)
+            elif x < 0.95:
+                self.emit("m api %d %d" % (tid, self.key(universe)))
             else:
                 self.emit("m find %d %d" % (tid, self.key(universe)))
             if digest_every and (i % digest_every == 0):
@@ -222,9 +224,20 @@ class Gen:
             self.emit("m move 6 5")                           # leave 5 and 6 in a defined state for the next round
             self.emit("m new 5 0")
             self.emit("m move 7 5")
-        elif y < 0.95:
+        elif y < 0.93:
             self.emit("m move %d 0" % other)
             self.emit("m copy 0 %d" % other)
+        elif y < 0.97:
+            # initializer-list / iterator-range constructors (explicit capacity) and operator=(initializer_list)
+            items = " ".join("%d %d" % (self.key(universe), r.randrange(1000)) for _ in range(r.choice([0, 1, 3, 4, 9, 30])))
+            self.emit(("m %s 7 %d %s" % (r.choice(["newil", "newrange"]), r.choice([0, 2, 8, 40]), items)).rstrip())
+            self.emit("m digest 7")
+            self.emit("m inv 7")
+            self.emit("m stats 7")
+            items = " ".join("%d %d" % (self.key(universe), r.randrange(1000)) for _ in range(r.choice([0, 2, 4])))
+            self.emit(("m assignil 7 0 %s" % items).rstrip())
+            self.emit("m digest 7")
+            self.emit("m assignil %d 0 %d 5" % (other, self.key(universe)))
         else:
             self.emit("m copy 0 0")                           # self-assignment, self-swap: no effect
             self.emit("m swap 0 0")
@@ -363,6 +376,8 @@ class Gen:
             self.emit("m ltequalrange %d %d" % (tid, k))
         elif x < 0.67:
             self.emit("m ltindex %d %d" % (tid, k))
+        elif x < 0.695:
+            self.emit("m ltapi %d %d" % (tid, k))
         elif x < 0.72:
             self.emit("m iter %d" % tid)
             self.emit("m riter %d" % tid)
@@ -600,6 +615,31 @@ class RefMap:
                 self.mlf[tid], self.mhp[tid] = self.mlf.get(src), self.mhp.get(src)
             self.locked[tid] = False
             return
+        if op in ("newil", "newrange", "assignil"):
+            if got != "ok":
+                if not got.startswith("err") and not got.startswith("bad-table"):
+                    self.fail("C11", i, line, got, "construction / assignment from a list failed")
+                return
+            pairs = [(int(w[j]), int(w[j + 1])) for j in range(3, len(w) - 1, 2)]
+            if op != "newrange":
+                pairs = pairs[:4]
+            if op != "assignil":
+                self.transferred[tid] = False
+                self.locked[tid] = False
+                self.mlf[tid] = MLF_DEFAULT
+                self.mhp[tid] = NOMAX
+                self.exists.add(tid)
+                self.alloc[tid] = 0
+                self.read_settings[tid] = False
+            mm = {}
+            for k_, v_ in pairs:
+                mm.setdefault(k_, v_)
+            self.maps[tid] = mm
+            return
+        if op == "ltapi":
+            if got != "ok" and tid in self.maps and self.locked.get(tid):
+                self.fail("C09", i, line, got, "the overloads of the locked table disagree with one another: " + got)
+            return
         if op == "ltmoveassign":
             if got != "ok":
                 self.fail("C06", i, line, got, "move assignment onto an active locked_table: " + got)
@@ -680,6 +720,10 @@ class RefMap:
             if not cond:
                 self.fail(prop, i, line, got, why)
 
+        if op == "api":
+            k = int(w[2])
+            expect(got == ("ok 1" if k in m else "ok 0"), "lookup wrappers (find / contains / find(key) / find_fn): " + got, "C17")
+            return
         if op in ("find",):
             k = int(w[2])
             expect(val == ("1" if k in m else "0"), "find result differs from the reference map")
